@@ -3,7 +3,7 @@
    Go code on every run by the correspondence of Raft/Wire.v.run_case with the real `core` objects. *)
 From Coq Require Import List NArith ZArith.
 From BLB Require Import Lib.LTS Raft.Core Raft.Wire Raft.NodeElect Raft.NodeMono Raft.NodeLeader Raft.NodeConf Raft.Election Raft.ElectionFixed Raft.ElectionExample Raft.Mechanisms C02.Proofs.
-From BLB Require Import Raft.LogMatchLists Raft.LogMatchNode Raft.LogMatch Raft.LogMatchExample.
+From BLB Require Import Raft.LogMatchLists Raft.LogMatchNode Raft.LogMatch Raft.Completeness Raft.LogMatchExample.
 Import ListNotations.
 Open Scope N_scope.
 
@@ -183,10 +183,81 @@ Theorem log_matching_nonvacuous :
 Proof. exact Raft.LogMatchExample.log_matching_nonvacuous. Qed.
 Print Assumptions log_matching_nonvacuous.
 
+(* [PARTIAL] clause 3 building block, same system and restricted alphabet as log_matching: in every reachable state there is a set G of
+   leader log records (term, leader, log) such that the records of one term are prefix-comparable (the leader of a term only
+   ever appends, system-wide and across step-down, crash and restart), every record other than the bootstrap record
+   belongs to a node recorded as leader of that term, every current leader's log is a record, every prefix of every log
+   that ends in an entry of term t is the equally long prefix of a record of term t, every AppEnts ever sent is a
+   contiguous slice of a record of its term preceded by a matching prevIndex and prevTerm, and no InstallSnapshot is ever sent *)
+Theorem append_entries_are_leader_log_slices_partial :
+  forall (bm : list nid) (be : N) (σ0 σ : sys) (sched : list sys_event),
+    linit σ0 ->
+    run sys sys_event (lstep (length (sy_nodes σ0)) bm be) σ0 sched σ ->
+    exists G : list (N * nid * list entry),
+      (forall t i l j l', In (t, i, l) G -> In (t, j, l') G -> pfx l l' \/ pfx l' l) /\
+      (forall t i l, In (t, i, l) G -> i <> 0 -> In (t, i) (sy_hist σ)) /\
+      (forall a, In a (sy_nodes σ) -> n_role a = Leader -> In (p_term (n_p a), n_id a, p_log (n_p a)) G) /\
+      (forall a k e, In a (sy_nodes σ) -> nth_error (p_log (n_p a)) k = Some e ->
+                     exists i l, In (e_term e, i, l) G /\ firstn (S k) (p_log (n_p a)) = firstn (S k) l) /\
+      (forall m pi pt cm oe, In m (sy_soup σ) -> m_body m = AppEnts pi pt cm oe ->
+                             exists i l, In (m_term m, i, l) G /\ slice l pi pt oe) /\
+      (forall m li lt c, In m (sy_soup σ) -> m_body m <> InstallSnap li lt c).
+Proof. exact Raft.Completeness.leader_log_records_sys. Qed.
+Print Assumptions append_entries_are_leader_log_slices_partial.
+
+(* [PARTIAL] clause 3, the acknowledging half of leader completeness, same system and restricted alphabet: whenever a step makes a node
+   emit a successful AppEntsResp for index idx in term T, that node holds at that moment at least idx entries and its first
+   idx entries are exactly the first idx entries of the log of the node that is leader with term T in the same state. Missing
+   for leader_completeness: that this prefix survives until the acknowledger votes in a later term unless a leader of an
+   intermediate term already lacks it, the up-to-date comparison of canGrantVote against the candidate log, and the
+   intersection of the acknowledging quorum counted by maybeCommit with the voting quorum *)
+Theorem leader_completeness_partial_ack_matches_leader_log :
+  forall (bm : list nid) (be : N) (σ0 σ σ' : sys) (sched : list sys_event) (e : sys_event),
+    linit σ0 ->
+    run sys sys_event (lstep (length (sy_nodes σ0)) bm be) σ0 sched σ ->
+    lstep (length (sy_nodes σ0)) bm be σ e σ' ->
+    forall m idx hint,
+      In m (sy_soup σ') -> ~ In m (sy_soup σ) -> m_body m = AppEntsResp true idx hint ->
+      forall a b,
+        In a (sy_nodes σ') -> n_id a = m_from m ->
+        In b (sy_nodes σ') -> n_role b = Leader -> p_term (n_p b) = m_term m ->
+        (N.to_nat idx <= length (p_log (n_p a)))%nat /\
+        firstn (N.to_nat idx) (p_log (n_p a)) = firstn (N.to_nat idx) (p_log (n_p b)).
+Proof. exact Raft.Completeness.ack_matches_leader_log_sys. Qed.
+Print Assumptions leader_completeness_partial_ack_matches_leader_log.
+
+(* [FULL] non-vacuity of leader_completeness_partial_ack_matches_leader_log: in the run of log_matching_nonvacuous the tenth step, a duplicate
+   AppEnts delivered to node 2 after its crash and restart, emits a successful AppEntsResp for index 2 in term 2 while node 1
+   is leader of term 2; all hypotheses of the theorem hold for two different nodes *)
+Theorem ack_matches_leader_log_nonvacuous :
+  exists σ0 sched σ e σ' m a b,
+    linit σ0 /\ run sys sys_event (lstep (length (sy_nodes σ0)) [1; 2] 5) σ0 sched σ /\
+    lstep (length (sy_nodes σ0)) [1; 2] 5 σ e σ' /\
+    In m (sy_soup σ') /\ ~ In m (sy_soup σ) /\ m_body m = AppEntsResp true 2 0 /\
+    In a (sy_nodes σ') /\ n_id a = m_from m /\ In b (sy_nodes σ') /\ n_role b = Leader /\ p_term (n_p b) = m_term m /\
+    n_id a <> n_id b.
+Proof. exact Raft.LogMatchExample.ack_nonvacuous. Qed.
+Print Assumptions ack_matches_leader_log_nonvacuous.
+
+(* [PARTIAL] clause 3 bookkeeping, same system and restricted alphabet: in every reachable state the terms of the entries of a log never
+   exceed the holder's current term and never decrease along the log; used by the up-to-date argument of leader completeness *)
+Theorem log_terms_bounded_and_monotone_partial :
+  forall (bm : list nid) (be : N) (σ0 σ : sys) (sched : list sys_event),
+    linit σ0 ->
+    run sys sys_event (lstep (length (sy_nodes σ0)) bm be) σ0 sched σ ->
+    forall a, In a (sy_nodes σ) ->
+      (forall e, In e (p_log (n_p a)) -> e_term e <= p_term (n_p a)) /\
+      (forall k1 k2 e1 e2, (k1 <= k2)%nat -> nth_error (p_log (n_p a)) k1 = Some e1 ->
+                           nth_error (p_log (n_p a)) k2 = Some e2 -> e_term e1 <= e_term e2).
+Proof. exact Raft.Completeness.log_terms_sys. Qed.
+Print Assumptions log_terms_bounded_and_monotone_partial.
+
 (* NOT YET PROVED (statements kept visible; listed in props/C02.json not_yet_proved):
-   clause 3  leader_completeness : an entry, once committed, is in the log (or snapshot) of every later leader;
+   clause 3  leader_completeness : an entry, once committed, is in the log (or snapshot) of every later leader
+             (proved so far: append_entries_are_leader_log_slices_partial, leader_completeness_partial_ack_matches_leader_log,
+             log_terms_bounded_and_monotone_partial and the node-level mechanism theorems above);
    clause 4  state_machine_safety : no two nodes hand different entries at the same index to TakeNewlyCommitted;
    log_matching across snapshot installation / log trim and across AddNode/RemoveNode;
-   commit_le_last (refuted by F10 on the current code: C07 restart_storage_consistent_refuted; checked by a monitor);
+   commit_le_last as a reachable-state invariant;
    and the extension of election_safety to AddNode/RemoveNode (quorums of Members and Members +/- 1 intersect).
    On the real code all four clauses are evaluated after every event by the monitors of the Go simulation. *)
